@@ -82,7 +82,7 @@ func main() {
 		}
 	}
 	// instrumentation statistics: how many sites exist, so that "nothing to interleave" is visible
-	if b, err := os.ReadFile(filepath.Join(vlib.Root, ".build", "ov-access", "instr_stats.json")); err == nil {
+	if b, err := os.ReadFile(filepath.Join(buildDir(), "ov-access", "instr_stats.json")); err == nil {
 		var st map[string]int
 		if json.Unmarshal(b, &st) == nil {
 			c.Set("instrumented_access_sites", st["access_sites"])
@@ -92,12 +92,23 @@ func main() {
 	hmodel.Finish(c, t, "a schedule is a vector of scheduler choices over threads that each run encode/decode operations on shared codec instances; scheduling points are the instrumented accesses to package-level variables and codec/compressor fields; oracle: per-thread results equal the sequential run")
 }
 
+func buildDir() string {
+	if b := os.Getenv("VERIF_BUILD"); b != "" {
+		return b
+	}
+	return filepath.Join(vlib.Root, ".build")
+}
+
 // raceSupplement runs the same operation bodies free-running under the race detector. It is a
 // sampling supplement (labelled as such in the evidence); a reported race is a real violation of
 // "without data races".
 func raceSupplement(c *vlib.Check) {
-	bin := filepath.Join(vlib.Root, ".build", "c18race.bin")
-	cmd := exec.Command("go", "build", "-race", "-o", bin, "./checks/c18race")
+	bin := filepath.Join(buildDir(), "c18race.bin")
+	args := []string{"build"}
+	if mf := os.Getenv("VERIF_MODFLAG"); mf != "" {
+		args = append(args, mf) // a run against a scratch copy of the repository (vcheck, VERIF_REPO)
+	}
+	cmd := exec.Command("go", append(args, "-race", "-o", bin, "./checks/c18race")...)
 	cmd.Dir = vlib.Root
 	if out, err := cmd.CombinedOutput(); err != nil {
 		c.Set("race_supplement", "not run: build failed: "+strings.TrimSpace(string(out)))
